@@ -37,7 +37,11 @@ func c10Trans(c *Ctx, pre *Node, st Step, res *Result, post *State) ([]Violation
 	case "branch", "switch", "update-ref":
 		outs := Allowed(pa, st)
 		if outs == nil {
-			return nil, true
+			// the model has no opinion on this argument shape; a refusal must still leave everything as it was
+			if res.Exit != 0 && !SameIgnoringTmp(pre.State, post) {
+				bad("refused-unchanged", "the refused command changed the repository")
+			}
+			return vs, len(vs) == 0
 		}
 		if ok, why := MatchAny(outs, pa, qa, res, Components{B: true, H: true}); !ok {
 			bad("branch-machine", "model disagrees: %s", why)
@@ -116,6 +120,8 @@ func checkC10(e *RunEnv) *CheckResult {
 				add(Run("switch", nm))
 				add(Run("switch", "-c", nm))
 			}
+			add(Run("branch", "-d", "b", "-d", "nope"), "flag-repeated")
+			add(Run("branch", "-d", "a", "-d", "main"), "flag-repeated")
 			add(Run("switch", "."), "name:dot")
 			add(Run("switch", ".."), "name:dotdot")
 			add(Run("branch", "-d", "."), "name:dot")
